@@ -10,7 +10,7 @@ from collections import Counter
 
 from .. import history as H
 from ..common import cedge, dc, dedupe, permuted
-from ..common import nodes_with_metadata
+from ..common import nodes_with_metadata, clone_label
 from ..engine import Clause, Violation
 
 ASSUMPTIONS = [
@@ -200,7 +200,8 @@ def observe(h, universe, probes, real):
             o["get_weight"][e] = h.get_weight(e)
             o["edge_meta"][e] = dc(h.get_edge_metadata(e))
     inc, nei, deg, mdeg, iso, nmeta = {}, {}, {}, {}, {}, {}
-    for n in nodes:
+    for n0 in nodes:
+        n = clone_label(n0)   # equal label, other object: found by equality
         inc[n] = {None: Counter(cedge(e) for e in h.get_incident_edges(n))}
         nei[n] = {None: _setof(h.get_neighbors(n))}
         deg[n] = {None: h.degree(n)}
@@ -316,6 +317,9 @@ class HypergraphAdapter(H.Adapter):
 
     def r_set_edge_metadata(self, h, e, meta):
         h.set_edge_metadata(tuple(e), meta)
+
+    def r_get_edge_metadata(self, h, e):
+        return h.get_edge_metadata(tuple(e))
 
     def r_set_attr_edge(self, h, e, f, v):
         h.set_attr_to_edge_metadata(tuple(e), f, v)
